@@ -33,12 +33,13 @@ def run_part(part, tier, workdir, seed):
            'distinct_nontrivial': 0, 'assumptions': [], 'items': part.get('items', []), 'exhaustive': True, 'bounds': part.get('bounds')}
     res['items'] = kani_engine.function_items(part.get('functions', []))
     cmd, cwd = playback_cmd(part['crate'], names)
-    os.environ['CARGO_TARGET_DIR'] = PLAYBACK_TARGET
+    target = PLAYBACK_TARGET + kani_engine.CRATES[part['crate']].get('target_suffix', '')
+    os.environ['CARGO_TARGET_DIR'] = target
     if tier == 'thorough':
         os.environ['VERIF_B_TIER'] = 'thorough'
     else:
         os.environ['VERIF_B_TIER'] = 'quick'
-    res['checker_cmd'] = 'cd %s && CARGO_TARGET_DIR=%s C2PA_VERIF_DIR=%s VERIF_B_TIER=%s %s' % (cwd, PLAYBACK_TARGET, VERIF, os.environ['VERIF_B_TIER'], ' '.join(cmd))
+    res['checker_cmd'] = 'cd %s && CARGO_TARGET_DIR=%s C2PA_VERIF_DIR=%s VERIF_B_TIER=%s %s' % (cwd, target, VERIF, os.environ['VERIF_B_TIER'], ' '.join(cmd))
     os.makedirs(workdir, exist_ok=True)
     log = os.path.join(workdir, 'native-%s.log' % part['name'].replace(':', '_'))
     timeout = part.get('timeout', 2400)
